@@ -628,6 +628,14 @@ pub fn supervise(args: &Args) -> i32 {
     for l in &known_lines {
         println!("{l}");
     }
+    // what was tolerated without a verdict (inputs the property leaves open): visible on stdout, not only in the
+    // evidence file - a run in which an open input starts to be refused must not look like the run before
+    {
+        let tolerated: Vec<String> = merged.extra.iter().filter(|(k, v)| **v > 0 && (k.starts_with("refused") || k.starts_with("skipped:") || k.starts_with("no verdict"))).map(|(k, v)| format!("{k} = {v}")).collect();
+        if !tolerated.is_empty() {
+            println!("NOTE: tolerated without a verdict (unspecified inputs): {}", tolerated.join("; "));
+        }
+    }
     if confirmed.is_empty() {
         println!("OK property={} held on everything explored", args.id);
         0
